@@ -123,10 +123,14 @@ class MindsDBParser(Parser):
 
         if isinstance(storage, str):
             # convert to identifier
+            if storage == '':
+                raise ParsingException("CREATE KNOWLEDGE_BASE: 'storage' must be a name")
             storage = Identifier(storage)
 
         if isinstance(model, str):
             # convert to identifier
+            if model == '':
+                raise ParsingException("CREATE KNOWLEDGE_BASE: 'model' must be a name")
             model = Identifier(model)
 
         if_not_exists = p.if_not_exists_or_empty
